@@ -187,6 +187,7 @@ func cookieBinding(r *vh.Runner, c *vh.Case, rep int) {
 	rng := vh.NewRand(r.Seed, "c19-cookie", rep)
 	w, id := newLoggedWorld(nil)
 	defer w.Server.Close()
+	w.V6 = rep%3 == 1 // every third repetition with IPv6 clients
 	// two flows stopped before their ClientAck reaches the server
 	hold := func(mt byte) bool { return mt == 0x03 }
 	ma, addrA, ca := captureFlow(w, id, false, nil, hold)
@@ -199,6 +200,11 @@ func cookieBinding(r *vh.Runner, c *vh.Case, rep int) {
 		return
 	}
 	otherIP := &net.UDPAddr{IP: net.IPv4(10, 9, byte(rng.Intn(250)), byte(1+rng.Intn(250))), Port: addrA.Port}
+	if addrA.IP.To4() == nil { // another IPv6 address, differing in one byte anywhere
+		ip := append(net.IP(nil), addrA.IP...)
+		ip[rng.Intn(16)] ^= byte(1 + rng.Intn(255))
+		otherIP = &net.UDPAddr{IP: ip, Port: addrA.Port}
+	}
 	otherPort := &net.UDPAddr{IP: addrA.IP, Port: addrA.Port + 1 + rng.Intn(100)}
 	withCookieOfB := append([]byte(nil), ackA...)
 	copy(withCookieOfB[ackCookieOff:ackCookieEnd], ackB[ackCookieOff:ackCookieEnd])
@@ -243,7 +249,11 @@ func cookieBinding(r *vh.Runner, c *vh.Case, rep int) {
 			}
 		}
 		r.Count("evaluations", 1)
-		r.Count("client_acks_delivered:"+s.name, 1)
+		fam := "ipv4"
+		if s.src.IP.To4() == nil {
+			fam = "ipv6"
+		}
+		r.Count("client_acks_delivered:"+s.name+":"+fam, 1)
 		r.Nontrivial(fmt.Sprintf("ack|%d|%s", rep, s.name))
 		detail := map[string]any{"stimulus": s.name, "source": s.src.String(), "minted_for": addrA.String(), "server_auth_emitted": auth, "datagrams_emitted": len(tx),
 			"tables_before": []int{h0, s0}, "tables_after": []int{h1, s1}}
@@ -257,7 +267,7 @@ func cookieBinding(r *vh.Runner, c *vh.Case, rep int) {
 			return
 		}
 		if accepted {
-			c.Violate("C19:client-ack-accepted:"+s.name, detail)
+			c.Violate("C19:client-ack-accepted:"+s.name+":"+fam, detail)
 		}
 	}
 	for _, s := range stimuli {
